@@ -9,8 +9,11 @@ PROPS = {
     "C14": {
         "modules": ["Hannibal.Props.C14", "Hannibal.Props.C14Current"],
         "theorems": ["Hannibal.C14_holds", "Hannibal.C14_current", "Hannibal.wellWired14_current"],
-        "cases": {"quick": {"C14": 1200}, "thorough": {"C14": 15000, "x:C14": 320, "C05": 3000, "C02": 3000}},
+        "cases": {"quick": {"C08@reg08": 500, "C14": 1200}, "thorough": {"C08@reg08": 8000, "C14": 15000, "x:C14": 320, "C05": 3000, "C02": 3000}},
         "assumptions": COMMON_ASSUMPTIONS + [
+            "'everything that depends on them - on-demand respawn of services, register-if-stopped, try_from_registry - "
+            "reacts to a termination that nobody awaited': the registry family is run through the registry acceptor inside "
+            "this check (C08@reg08: linearizability against Spec08, whose liveness is the truthful one)",
             "'terminated' = the executor-level end of the actor's task (taskDone / taskPanic / cancel)",
         ],
     },
@@ -67,7 +70,7 @@ PROPS = {
         "cases": {"quick": {}, "thorough": {}},
         "assumptions": [
             "rustc's trait solver is modelled only for the bound shapes that occur in hannibal's API surface",
-            "the catalogue is the tie between that abstraction and rustc (53 programs, 21 entry points)",
+            "the catalogue is the tie between that abstraction and rustc (62 programs, 25 entry points)",
         ],
     },
     "C13": {
